@@ -60,6 +60,7 @@ TSign ==
      /\ PRabFits(K.bits)
      /\ W.nf = 3 /\ W.magic = "sig" /\ W.val.num /\ Ev.inrange
      /\ W.kid = IdText(IF Ev.self THEN Ev.sid ELSE K.sid, IdLen)
+     /\ \A a \in pad : (a[1] = K.mid /\ a[2] = W.val.sq) => a[3] = Ev.did      \* an encoding belongs to one data string
      /\ pad' = pad \cup {<<K.mid, W.val.sq, Ev.did>>}
      /\ roots' = roots \cup {<<Ev.key, W.val.sq, Ev.vid, Ev.nvid>>}
   /\ UNCHANGED <<keys, enc>> /\ l' = l + 1
@@ -83,6 +84,7 @@ TEncrypt ==
      /\ SAEPFits(K.bits)
      /\ W.nf = 3 /\ W.magic = "enc" /\ W.val.num /\ Ev.inrange
      /\ W.kid = IdText(K.sid, IdLen)
+     /\ \A a \in enc : (a[1] = K.mid /\ a[2] = W.val.rs) => a[3] = Ev.pt        \* a ciphertext belongs to one plaintext
      /\ enc' = enc \cup {<<K.mid, W.val.rs, Ev.pt>>}
   /\ UNCHANGED <<keys, pad, roots>> /\ l' = l + 1
 
@@ -103,12 +105,6 @@ TCheck ==
 
 TNext == TReset \/ TGen \/ TSign \/ TRoots \/ TVerify \/ TEncrypt \/ TDecrypt \/ TCheck
 TSpec == TInit /\ [][TNext]_vars
-
-\* tamper evidence restated on the tables: an encoding belongs to one modulus and one data string,
-\* a ciphertext residue to one plaintext
-TablesFunctional ==
-  /\ \A a, b \in pad : (a[1] = b[1] /\ a[2] = b[2]) => a[3] = b[3]
-  /\ \A a, b \in enc : (a[1] = b[1] /\ a[2] = b[2]) => a[3] = b[3]
 
 Accepted == TLCGet("stats").diameter = Len(TraceLog) + 1
 =============================================================================
